@@ -2,7 +2,8 @@
 C05 — what Fandango generates, Fandango parses back (round trip).
 
 Property theorems only.  Helper lemmas: `Proofs/Enum.lean`, `Proofs/Scan.lean`, `Proofs/RepCap.lean`, `Proofs/IR.lean`,
-`Proofs/EarleyComplete1.lean` … `Proofs/EarleyComplete9.lean` (completeness of the Earley machine model);
+`Proofs/EarleyComplete1.lean` … `Proofs/EarleyComplete9.lean` (completeness of the Earley machine model),
+`Proofs/EarleyTotalLang.lean` (its converse), `Proofs/EarleyFuel.lean`, `Proofs/EarleyTotal.lean` (composition with C04/C06);
 models: `Model/Enum.lean` (an enumerator of the language that follows nothing but the grammar), `Model/IR.lean`
 (`Valid`, `Lang`), `Model/Scan.lean` (the scanners of `iterative_parser.py` as of 1ef12755 — one greedy `re.match`
 length per regex scan, an empty match IS a match (179bde08), literals compared unit by unit, text/bytes/regex only
@@ -48,12 +49,30 @@ What is proved:
                whose leaves tile the input; **`C05_roundtrip`**: every in-class derivation of a well-formed grammar
                is parsed back by the machine model.  Non-vacuity: `C05_example_rlen_ok`, `C05_machine_example`,
                `C05_machine_nullable_example` (`decide +kernel` runs of the model).
-    NOT in these theorems: (a) that a run IS finished within a bound — that is `C06_forest_terminates`; the two
-    cannot be stated in ONE Lean theorem today because `Proofs/C04Chart.lean` (needed here: `Good`, `Inv`) and
-    `Proofs/EarleyTerm.lean` / `Proofs/EarleyBound.lean` (C06) both declare `FV.Earley.Inv`, `inv_init`,
-    `colAt_replicate`; the statements compose by hand: C06 gives the fuel, this file says what that run returns;
-    (b) the tie model ↔ code (translator `Generated/Earley.lean`, per-run correspondence of C04/C06, and this
-    property's own two-way comparison of `accepts` with the real `Fandango.parse` on every word);
+  * **END TO END (§2c), composed with C04 (soundness) and C06 (termination) — no fuel parameter left free**
+    (`Proofs/EarleyFuel.lean`, `Proofs/EarleyTotalLang.lean`, `Proofs/EarleyTotal.lean`; possible since the name clash
+    between `Proofs/C04Chart.lean` and `Proofs/EarleyTerm.lean` / `Proofs/EarleyBound.lean` was removed: the termination
+    family's `Inv` / `inv_init` are now `TInv` / `tinv_init`, `colAt_replicate` lives once in `Proofs/EarleyCols.lean`):
+      (a) `C05_parse_total`: the parser model is a TOTAL FUNCTION — at C06's explicit bound
+          `totalFuel c = stepBoundN c (chartBound c) + 1` `parseComplete` has finished with `ok ts` (never an exception,
+          given `RlenOk`), every larger budget returns the same `ts`, no budget returns anything else;
+      (b) `C05_parse_decides_language` (`C05_parse_decides_expansions`, `C05_parse_rejects_outside_language`): that
+          answer has `ts ≠ []` **IFF** `∃ c d, Scan.accepts G inp c d start = true` — the Earley machine model DECIDES the
+          scanner-level language.  ⇐ `C05_machine_complete`; ⇒ chart soundness (C04) + the converse of STAGE 1, proved
+          for this (`parsed_accepts`, `drv_semT`: the compiled table derives nothing but expansions of the IR that the
+          scanners read; stated in C04 as `C04_yielded_only_for_language`).  NOTE: the converse does NOT follow from
+          `Valid` + `Tiles` of the yielded tree (a tree does not say which terminal a leaf instantiates, nor that a regex
+          leaf is the one length `re.match` prefers at its column) — it is proved on the table derivation instead;
+      (c) `C05_roundtrip_total`: for every in-class derivation (the hypotheses of `C05_roundtrip`) the parser model
+          terminates and returns a non-empty list of trees, each `Valid`, rooted at the start symbol, its leaves tiling
+          the word column by column with payload leaves on cell boundaries (for a tree without bit leaves: the
+          payloads concatenated ARE the word's cells).
+    Hypotheses, exactly: `G.wf`, `RlenOk` (or C04's `OracleOk`, which implies it), `PredExact`; C06's `Sane` follows
+    (`sane_mkCfg`); (c) additionally C04's `CellsOk`, `G.typed`.  Each with an `example` on `("a"?)* "b"` / "ab" (a
+    grammar with a same-span self-derivation) that meets them; one example decides NON-membership of "ba" for all
+    bounds from a 300-step run of the model.
+    NOT in these theorems: the tie model ↔ code (translator `Generated/Earley.lean`, per-run correspondence of C04/C06,
+    and this property's own two-way comparison of `accepts` with the real `Fandango.parse` on every word);
   * `C05_untagged_in_class`: the walk the driver runs on trees of the real generator (which carry no tags) is
     conservative: it implies `inClass` for every tagging consistent with `re.fullmatch`;
   * current-code witnesses (`decide +kernel`, each replayed on /repo by the harness as a corner spec):
@@ -70,6 +89,7 @@ import Proofs.Scan
 import Proofs.RepCap
 import Proofs.IRFast
 import Proofs.EarleyComplete9
+import Proofs.EarleyTotal
 import Generated.Earley
 namespace FV
 namespace Enum
@@ -281,7 +301,8 @@ theorem C05_generated_variant_is_now : Earley.Gen.variant = some Variant.now := 
     symbol, if the word is in the parser's language (`Scan.accepts`: some expansion of the grammar is read by the
     scanners from the first to the last column — `C05_parser_language_iff`) then the Earley machine of the code as it
     is (`Variant.now`) does not raise, and whenever it is done it returns at least one tree.  (That it IS done within
-    `stepBoundN c (chartBound c) + 1` steps is `C06_forest_terminates`.) -/
+    `stepBoundN c (chartBound c) + 1` steps is `C06_forest_terminates`; composed, with no fuel left free:
+    `C05_parse_total`, `C05_parse_decides_language` in §2c.) -/
 theorem C05_machine_complete (G : Grammar) (hwf : G.wf = true) (inp : Input) (ho : RlenOk inp) (start : String)
     (pred : Nat → NT → List (List ESym)) (hp : PredExact G pred) (c d : Nat)
     (hacc : accepts G inp.toInp c d start = true) (fuel : Nat) :
@@ -339,6 +360,181 @@ theorem C05_roundtrip (G : Grammar) (hwf : G.wf = true) (inst : Inst) (c d : Nat
   intro pred hp fuel
   have hacc := C05_roundtrip_partial G inst c d c d s a r t tags inp binary hder (Nat.le_refl _) (Nat.le_refl _) hin
   exact accepts_parsed G hwf ⟨isBytes, inp.cells, inp.rlen⟩ ho s pred hp c d hacc fuel
+
+end Scan
+
+/-! ## 2c. END TO END — soundness (C04), termination (C06) and completeness composed: no fuel left free
+
+`totalFuel c = stepBoundN c (chartBound c) + 1` is C06's explicit step bound (`Proofs/EarleyFuel.lean`), a function of
+the configuration alone.  Hypotheses, exactly: `G.wf` (repetition bounds of their class, `min ≤ max`), `RlenOk inp`
+(the regex length oracle never reports more than is left of the word; implied by C04's `OracleOk`), `PredExact G pred`
+(`predict` offers exactly the alternatives of the compiled table, in any order); C06's `Sane` follows from them
+(`sane_mkCfg`).  Non-vacuity on `totG` = `<start> ::= ("a"?)* "b"` (a same-span self-derivation: `totG_epsCycle`). -/
+
+namespace Earley
+open FV.Scan (scanAll ExpNT accepts)
+
+/-- **(a) the parser model is a total function.**  For every grammar, every input whose regex oracle is bounded by the
+    word, every start symbol and every prediction order that only offers alternatives of the table: after
+    `totalFuel` steps — C06's bound — `parseComplete` HAS finished, without an exception; every larger budget returns
+    the same list of trees, and no budget at all returns anything else. -/
+theorem C05_parse_total (G : Grammar) (inp : Input) (ho : RlenOk inp) (start : String)
+    (pred : Nat → NT → List (List ESym)) (hpred : ∀ k x rhs, rhs ∈ pred k x → (x, rhs) ∈ compile G none) :
+    ∃ ts, parseComplete (mkCfg G Variant.now inp start pred) (totalFuel (mkCfg G Variant.now inp start pred))
+          = some (.ok ts) ∧
+      (∀ fuel, totalFuel (mkCfg G Variant.now inp start pred) ≤ fuel →
+        parseComplete (mkCfg G Variant.now inp start pred) fuel = some (.ok ts)) ∧
+      (∀ fuel r, parseComplete (mkCfg G Variant.now inp start pred) fuel = some r → r = .ok ts) :=
+  parse_now_total G inp ho start pred hpred
+
+/-- the hypotheses of `C05_parse_total` are met by `("a"?)* "b"` on "ab" with prediction in table order — a grammar
+    on which the parser before /repo 73e5ffe3 did not terminate -/
+example : RlenOk totAB ∧ (∀ k x rhs, rhs ∈ predTable totG k x → (x, rhs) ∈ compile totG none) ∧
+    hasEpsCycle (compile totG none) = true ∧
+    ∃ ts, parseComplete (mkCfg totG Variant.now totAB "<start>" (predTable totG))
+      (totalFuel (mkCfg totG Variant.now totAB "<start>" (predTable totG))) = some (.ok ts) :=
+  ⟨tot_rlenOk _, (predTable_exact totG).sub, totG_epsCycle,
+    (C05_parse_total totG totAB (tot_rlenOk _) "<start>" (predTable totG) (predTable_exact totG).sub).imp
+      (fun _ h => h.1)⟩
+
+/-- **(b) the Earley machine model DECIDES the scanner-level language.**  For every well-formed grammar, bounded oracle,
+    input, start symbol and prediction order offering exactly the alternatives of the table: the (fuel-independent)
+    answer of the parser is `ok ts`, and `ts ≠ []` **iff** the word is in the parser's language — `Scan.accepts` for some
+    bounds on nesting depth and repetition counts (`C05_parser_language_iff`: some expansion of the grammar is read by
+    the scanners from the first to the last column).  ⇐ is `C05_machine_complete`; ⇒ is chart soundness (C04) plus the
+    converse of the compilation (`Proofs/EarleyTotalLang.lean`, `C04_yielded_only_for_language`). -/
+theorem C05_parse_decides_language (G : Grammar) (hwf : G.wf = true) (inp : Input) (ho : RlenOk inp) (start : String)
+    (pred : Nat → NT → List (List ESym)) (hp : PredExact G pred) :
+    ∃ ts, parseComplete (mkCfg G Variant.now inp start pred) (totalFuel (mkCfg G Variant.now inp start pred))
+          = some (.ok ts) ∧
+      (∀ fuel, totalFuel (mkCfg G Variant.now inp start pred) ≤ fuel →
+        parseComplete (mkCfg G Variant.now inp start pred) fuel = some (.ok ts)) ∧
+      (ts ≠ [] ↔ ∃ c d, accepts G inp.toInp c d start = true) :=
+  parse_now_decides G hwf inp ho start pred hp
+
+/-- the same with the language spelt out: a tree comes back iff some expansion of `<start>` (some depth, some bound on
+    the repetition counts) is a terminal sequence the scanners read from column 0 to the last column -/
+theorem C05_parse_decides_expansions (G : Grammar) (hwf : G.wf = true) (inp : Input) (ho : RlenOk inp) (start : String)
+    (pred : Nat → NT → List (List ESym)) (hp : PredExact G pred) :
+    ∃ ts, parseComplete (mkCfg G Variant.now inp start pred) (totalFuel (mkCfg G Variant.now inp start pred))
+          = some (.ok ts) ∧
+      (ts ≠ [] ↔ ∃ c d w, ExpNT G c d start w ∧ scanAll inp.toInp w 0 = some (8 * inp.cells.length)) := by
+  obtain ⟨ts, h1, _, h3⟩ := parse_now_decides G hwf inp ho start pred hp
+  refine ⟨ts, h1, h3.trans ?_⟩
+  constructor
+  · rintro ⟨c, d, h⟩
+    obtain ⟨w, hw, hs⟩ := (Scan.accepts_iff G inp.toInp c d start).1 h
+    exact ⟨c, d, w, hw, hs⟩
+  · rintro ⟨c, d, w, hw, hs⟩
+    exact ⟨c, d, (Scan.accepts_iff G inp.toInp c d start).2 ⟨w, hw, hs⟩⟩
+
+/-- … and a word outside the language (for all bounds) gets the empty forest — not an exception, not a hang -/
+theorem C05_parse_rejects_outside_language (G : Grammar) (hwf : G.wf = true) (inp : Input) (ho : RlenOk inp)
+    (start : String) (pred : Nat → NT → List (List ESym)) (hp : PredExact G pred)
+    (hout : ∀ c d, accepts G inp.toInp c d start = false) :
+    parseComplete (mkCfg G Variant.now inp start pred) (totalFuel (mkCfg G Variant.now inp start pred))
+      = some (.ok []) := by
+  obtain ⟨ts, h1, _, h3⟩ := parse_now_decides G hwf inp ho start pred hp
+  cases ts with
+  | nil => exact h1
+  | cons t rest =>
+    obtain ⟨c, d, h⟩ := h3.1 (by simp)
+    rw [hout c d] at h
+    cases h
+
+/-- the hypotheses of `C05_parse_decides_language` are met by `("a"?)* "b"`; "ab" is in its language, so the total
+    parser returns a tree — here the theorem is USED, the step bound is far too large to run -/
+example : totG.wf = true ∧ RlenOk totAB ∧ PredExact totG (predTable totG) ∧
+    ∃ ts, parseComplete (mkCfg totG Variant.now totAB "<start>" (predTable totG))
+      (totalFuel (mkCfg totG Variant.now totAB "<start>" (predTable totG))) = some (.ok ts) ∧ ts ≠ [] := by
+  refine ⟨totG_wf, tot_rlenOk _, predTable_exact totG, ?_⟩
+  obtain ⟨ts, h1, _, h3⟩ :=
+    C05_parse_decides_language totG totG_wf totAB (tot_rlenOk _) "<start>" (predTable totG) (predTable_exact totG)
+  exact ⟨ts, h1, h3.2 ⟨1, 1, totAB_accepted⟩⟩
+
+/-- deciding NON-membership for all bounds with a finite run of the model: on "ba" the machine is over after 300 steps
+    with no tree (`decide +kernel`); by (a) that is the answer of the total parser, by (b) "ba" is in the language for
+    NO bound on depth and repetition counts -/
+example : ∀ c d, accepts totG totBA.toInp c d "<start>" = false := by
+  have hrun : (match parseComplete (mkCfg totG Variant.now totBA "<start>" (predTable totG)) 300 with
+      | some (.ok ts) => ts.length
+      | _ => 1) = 0 := by decide +kernel
+  obtain ⟨ts, h1, _, h3⟩ :=
+    C05_parse_decides_language totG totG_wf totBA (tot_rlenOk _) "<start>" (predTable totG) (predTable_exact totG)
+  obtain ⟨ts', h1', _, hall⟩ :=
+    C05_parse_total totG totBA (tot_rlenOk _) "<start>" (predTable totG) (predTable_exact totG).sub
+  have hts : ts = ts' := by
+    rw [h1] at h1'
+    exact Except.ok.inj (Option.some.inj h1')
+  have hnil : ts' = [] := by
+    cases hr : parseComplete (mkCfg totG Variant.now totBA "<start>" (predTable totG)) 300 with
+    | none => rw [hr] at hrun; cases hrun
+    | some r =>
+      cases r with
+      | error e => rw [hr] at hrun; cases hrun
+      | ok l =>
+        rw [hr] at hrun
+        have hl : l = [] := List.eq_nil_of_length_eq_zero hrun
+        have := hall 300 _ hr
+        rw [hl] at this
+        exact (Except.ok.inj this).symm
+  intro c d
+  cases hacc : accepts totG totBA.toInp c d "<start>" with
+  | false => rfl
+  | true => exact absurd (hts.trans hnil) (h3.2 ⟨c, d, hacc⟩)
+
+end Earley
+
+namespace Scan
+open Enum Earley
+
+/-- **(c) THE ROUND TRIP, END TO END.**  For every in-class derivation of a well-formed grammar (the hypotheses of
+    `C05_roundtrip`: `DerNT` — a tree with, per leaf, the regex terminal it instantiates — whose every leaf is exactly
+    what ONE scan of its terminal reads at the column where the serialised leaf starts, `inClass`, on the word `inp`)
+    and every prediction order offering exactly the alternatives of the table, the parser model TERMINATES (within
+    `totalFuel`, the answer independent of the budget), returns `ok ts` with `ts ≠ []`, and every returned tree is a
+    valid derivation of the grammar rooted at `<s>` whose leaves tile the word `inp` column by column, payload leaves
+    on cell boundaries (C04) — for a tree without bit leaves: the payloads of its leaves, concatenated, ARE the cells
+    of the word.  `R`: the full-match oracle of `Valid` (`OracleOk`: it accepts what the length oracle returns);
+    `CellsOk`, `G.typed`: C04's assumptions on the input's type. -/
+theorem C05_roundtrip_total (G : Grammar) (hwf : G.wf = true) (inst : Inst) (c d : Nat) (s : String)
+    (a r : Option String) (t : Tree) (tags : List (Option Nat)) (inp : Inp) (binary isBytes : Bool)
+    (R : RegexOracle) (hoR : OracleOk ⟨isBytes, inp.cells, inp.rlen⟩ R) (hcells : CellsOk ⟨isBytes, inp.cells, inp.rlen⟩)
+    (hty : G.typed isBytes = true)
+    (hder : DerNT G inst c d s a r ([t], tags)) (hin : inClass inp binary t.leaves tags = true)
+    (pred : Nat → NT → List (List ESym)) (hp : PredExact G pred) :
+    ∃ ts, parseComplete (mkCfg G Variant.now ⟨isBytes, inp.cells, inp.rlen⟩ s pred)
+            (totalFuel (mkCfg G Variant.now ⟨isBytes, inp.cells, inp.rlen⟩ s pred)) = some (.ok ts) ∧
+      (∀ fuel, totalFuel (mkCfg G Variant.now ⟨isBytes, inp.cells, inp.rlen⟩ s pred) ≤ fuel →
+        parseComplete (mkCfg G Variant.now ⟨isBytes, inp.cells, inp.rlen⟩ s pred) fuel = some (.ok ts)) ∧
+      ts ≠ [] ∧
+      ∀ t' ∈ ts, Valid G R t' ∧ t'.sym = .nt s ∧
+        Tiles ⟨isBytes, inp.cells, inp.rlen⟩ t'.leaves 0 (8 * inp.cells.length) ∧
+        ((∀ l ∈ t'.leaves, l.isBit = false) → t'.leaves.flatMap Leaf.cellsOf = inp.cells) := by
+  have hacc := C05_roundtrip_partial G inst c d c d s a r t tags inp binary hder (Nat.le_refl _) (Nat.le_refl _) hin
+  have ho : RlenOk ⟨isBytes, inp.cells, inp.rlen⟩ := rlenOk_of_oracleOk hoR
+  obtain ⟨ts, h1, h2, h3⟩ := parse_now_decides G hwf ⟨isBytes, inp.cells, inp.rlen⟩ ho s pred hp
+  refine ⟨ts, h1, h2, h3.2 ⟨c, d, hacc⟩, ?_⟩
+  intro t' ht'
+  obtain ⟨v1, v2, v3⟩ :=
+    now_trees_sound G hwf ⟨isBytes, inp.cells, inp.rlen⟩ R hoR hcells hty s pred hp.sub _ ts h1 t' ht'
+  exact ⟨v1, v2, v3, fun hb => tiles_payload_cells ⟨isBytes, inp.cells, inp.rlen⟩ t'.leaves hb v3⟩
+
+/-- the hypotheses of `C05_roundtrip_total` are met: the enumerator lists a derivation of `("a"?)* "b"` that is in
+    the class on "ab" (`decide +kernel`), the grammar is well formed and typed, the oracles are fine — hence the
+    parser model returns, at its step bound, trees that spell "ab" -/
+example : ∃ ts, parseComplete (mkCfg totG Variant.now totAB "<start>" (predTable totG))
+      (totalFuel (mkCfg totG Variant.now totAB "<start>" (predTable totG))) = some (.ok ts) ∧ ts ≠ [] ∧
+    ∀ t' ∈ ts, Valid totG noRegex t' ∧ t'.sym = .nt "<start>" ∧ Tiles totAB t'.leaves 0 16 := by
+  have hex : (enumTrees totG (fun _ => []) 1 none 0 1 "<start>").any
+      (fun p => inClass totAB.toInp false p.1.leaves p.2) = true := by decide +kernel
+  obtain ⟨p, hp, hcls⟩ := List.any_eq_true.1 hex
+  obtain ⟨t, tags⟩ := p
+  have hder := C05_enum_is_bounded_derivation totG (fun _ => []) 1 none 0 1 "<start>" t tags hp
+  obtain ⟨ts, h1, _, hne, hall⟩ := C05_roundtrip_total totG totG_wf (fun _ => []) 1 1 "<start>" none none t tags
+    totAB.toInp false false noRegex (tot_oracleOk _) (tot_cellsOk _) totG_typed hder hcls (predTable totG)
+    (predTable_exact totG)
+  exact ⟨ts, h1, hne, fun t' ht' => ⟨(hall t' ht').1, (hall t' ht').2.1, (hall t' ht').2.2.1⟩⟩
 
 end Scan
 
